@@ -260,6 +260,17 @@ fn check_c01_call(ctx: &mut Ctx, client: &StatsdClient, cfg: &ClientCfg, sink: &
                             ctx.violation("C01", "standalone-constructor", "standalone-differs", format!("standalone constructor gives {:?}", clip(&st, 200)), trace(Json::Null));
                         }
                     }
+                    // the constructors take the full name in two pieces and join them as they are: the same full name cut
+                    // at any other place (a first piece that is empty, does not end in a dot, ends in several) gives the same text
+                    let full = format!("{}{}", norm_prefix(&cfg.prefix_raw), sp.key);
+                    let bounds: Vec<usize> = (0..=full.len()).filter(|i| full.is_char_boundary(*i)).collect();
+                    let cut = bounds[(cvh::rng::hash_str(text) % bounds.len() as u64) as usize];
+                    if let Some(st) = panics::guard(|| standalone(sp.kind, &full[..cut], &full[cut..], &sp.val)).ok().flatten() {
+                        ctx.rep.obs("standalone_compared_with_the_name_cut_elsewhere", 1);
+                        if &st != text {
+                            ctx.violation("C01", "standalone-constructor", "standalone-differs", format!("standalone constructor for the same full name, given as ({:?}, {:?}), renders {:?}", clip(&full[..cut], 80), clip(&full[cut..], 80), clip(&st, 200)), trace(Json::Null));
+                        }
+                    }
                 }
             }
             if ctx.rep.want_sample() {
@@ -577,7 +588,13 @@ fn c03_sequence(ctx: &mut Ctx, r: &mut Rng, outcomes: &[bool], ep_fixed: Option<
                 inj += 1;
                 let kind = IO_KINDS[(ctx.case_seed as usize + step * 7 + inj as usize) % IO_KINDS.len()];
                 let msg = format!("inj-{}-{}", ctx.case_seed % 100_000, inj);
-                sink.push_script(SinkOutcome::Refuse(kind, msg.clone()));
+                // what the sink wraps in its io::Error is its own business: message, typed payload, a cadence error
+                // passed on by a relaying sink, a raw OS error, a nested io::Error
+                let shape = cvh::rng::mix(&[ctx.case_seed, inj, 0x5A]) % 6;
+                sink.push_script(SinkOutcome::RefuseShape(shape, kind, msg.clone()));
+                let e = scripted_refusal(shape, kind, &msg);
+                let (kind, msg) = (e.kind(), e.to_string());
+                ctx.rep.obs(["refusals_with_a_message", "refusals_with_a_message", "refusals_with_a_typed_payload", "refusals_with_a_cadence_error_as_payload", "refusals_with_a_raw_os_error", "refusals_with_a_nested_io_error"][shape as usize], 1);
                 Some((kind, msg))
             }
         } else {
